@@ -18,10 +18,41 @@ const (
 	sBc            // B.commit
 	sBx            // B.abort
 	sNa            // N.append  (non-transactional idempotent producer)
+	// Extended alphabet: transactions that have the partition REGISTERED but
+	// appended nothing to it.
+	sAr // A.register: raw AddPartitionsToTxn(p0) with A's current producer id/epoch, no append (then Ac/Ax are raw EndTxn v4)
+	sBr // B.register
+	sAz // A.zombie-produce: after At, A (unaware of the broker-side abort) produces with its stale epoch; the broker fences the batch but has already opened an empty transaction
 	nSym
 )
 
-var symName = [nSym]string{"A+", "Ac", "Ax", "At", "B+", "Bc", "Bx", "N+"}
+var symName = [nSym]string{"A+", "Ac", "Ax", "At", "B+", "Bc", "Bx", "N+", "Ar", "Br", "Az"}
+
+const (
+	baseMask = uint32(1)<<sAr - 1
+	extSyms  = uint32(1)<<sAr | 1<<sBr | 1<<sAz
+	fullMask = uint32(1)<<nSym - 1
+)
+
+func maskNames(mask uint32) []string {
+	var out []string
+	for s := sym(0); s < nSym; s++ {
+		if mask&(1<<s) != 0 {
+			out = append(out, symName[s])
+		}
+	}
+	return out
+}
+
+// firstOf returns the index of the first symbol of h that is in mask, or -1.
+func firstOf(h []sym, mask uint32) int {
+	for i, s := range h {
+		if mask&(1<<s) != 0 {
+			return i
+		}
+	}
+	return -1
+}
 
 func histString(h []sym) string {
 	s := make([]string, len(h))
@@ -83,12 +114,21 @@ type model struct {
 	log      []entry
 	hwm      int64
 	open     [2]int16 // number of the open transaction of A/B, 0 = none
-	first    [2]int64 // first offset of that open transaction
+	first    [2]int64 // first offset of that open transaction, -1: it has the partition registered but no data
+	kind     [2]uint8 // how the open transaction came about
 	ntxn     [2]int16
 	outcomes [2][]outcome // per producer, index txn-1
+	staleA   bool         // the broker aborted A's client-driven transaction (At) and the client has not been used since
 	appends  int
 	step     int
 }
+
+// Kinds of open transactions.
+const (
+	kClient uint8 = iota // begun by the kgo client with an append
+	kRaw                 // Ar/Br: registered by a raw AddPartitionsToTxn, no data; ended by a raw EndTxn
+	kZombie              // Az: opened broker-side by A's fenced stale-epoch produce, no data; only At ends it
+)
 
 func newModel() *model { return &model{} }
 
@@ -103,10 +143,22 @@ func (m *model) clone() *model {
 
 func (m *model) enabled(s sym) bool {
 	switch s {
-	case sAc, sAx, sAt:
+	case sAc, sAx:
+		return m.open[pA] != 0 && m.kind[pA] != kZombie
+	case sAt:
 		return m.open[pA] != 0
 	case sBc, sBx:
 		return m.open[pB] != 0
+	case sAa: // (always enabled over the base alphabet)
+		return m.open[pA] == 0 || m.kind[pA] == kClient
+	case sBa:
+		return m.open[pB] == 0 || m.kind[pB] == kClient
+	case sAr:
+		return m.open[pA] == 0
+	case sBr:
+		return m.open[pB] == 0
+	case sAz:
+		return m.staleA && m.open[pA] == 0
 	}
 	return true
 }
@@ -119,6 +171,8 @@ type applied struct {
 	first  int64    // appends: offset of the first record; ends: offset of the marker
 	end    bool
 	commit bool
+	kind   uint8 // kind of the transaction the step opened / appended to / ended
+	wasStale bool // A+/Ar: A's client still believes in the transaction the broker aborted
 }
 
 // apply executes one enabled step on the model.
@@ -135,10 +189,14 @@ func (m *model) apply(s sym) applied {
 				m.ntxn[p]++
 				m.open[p] = m.ntxn[p]
 				m.first[p] = m.hwm
+				m.kind[p] = kClient
 				m.outcomes[p] = append(m.outcomes[p], oOpen)
 				a.begin = true
 			}
 			txn = m.open[p]
+			if p == pA {
+				a.wasStale, m.staleA = m.staleA, false
+			}
 		}
 		n := 1 + m.appends%2 // batches of one and two records alternate
 		for i := 0; i < n; i++ {
@@ -154,11 +212,34 @@ func (m *model) apply(s sym) applied {
 			p = pB
 		}
 		o := map[sym]outcome{sAc: oCommitted, sBc: oCommitted, sAx: oAborted, sBx: oAborted, sAt: oTimedOut}[s]
-		a.prod, a.end, a.commit, a.first = p, true, o == oCommitted, m.hwm
+		a.prod, a.end, a.commit, a.first, a.kind = p, true, o == oCommitted, m.hwm, m.kind[p]
+		if s == sAt {
+			m.staleA = m.kind[p] == kClient
+		}
 		m.outcomes[p][m.open[p]-1] = o
 		m.log = append(m.log, entry{off: m.hwm, prod: int8(p), txn: m.open[p], marker: true, commit: o == oCommitted})
 		m.hwm++
 		m.open[p] = 0
+	case sAr, sBr, sAz:
+		// A transaction that has the partition registered and no data: it
+		// contributes no record and no aborted range and does not hold back
+		// the last stable offset; its end writes a marker like any other.
+		p := pA
+		if s == sBr {
+			p = pB
+		}
+		a.prod, a.begin, a.kind, a.first = p, true, kRaw, m.hwm
+		if s == sAz {
+			a.kind = kZombie
+		}
+		if p == pA {
+			a.wasStale, m.staleA = m.staleA, false
+		}
+		m.ntxn[p]++
+		m.open[p] = m.ntxn[p]
+		m.first[p] = -1
+		m.kind[p] = a.kind
+		m.outcomes[p] = append(m.outcomes[p], oOpen)
 	}
 	m.step++
 	return a
@@ -169,7 +250,7 @@ func (m *model) apply(s sym) applied {
 func (m *model) lso() int64 {
 	l := m.hwm
 	for p := range m.open {
-		if m.open[p] != 0 && m.first[p] < l {
+		if m.open[p] != 0 && m.first[p] >= 0 && m.first[p] < l {
 			l = m.first[p]
 		}
 	}
@@ -227,6 +308,15 @@ func (m *model) hash() uint64 {
 		b = append(b, c, byte(e.txn))
 	}
 	b = append(b, 0xff, byte(m.open[pA]), byte(m.open[pB]))
+	if m.open[pA] != 0 {
+		b = append(b, m.kind[pA])
+	}
+	if m.open[pB] != 0 {
+		b = append(b, 0x80|m.kind[pB])
+	}
+	if m.staleA {
+		b = append(b, 0xfe)
+	}
 	h.Write(b)
 	return h.Sum64()
 }
@@ -247,7 +337,8 @@ func (m *model) describe(e *entry) string {
 
 func (m *model) dump() string {
 	var sb strings.Builder
-	fmt.Fprintf(&sb, "model: hwm=%d lso=%d openA=%d openB=%d\n", m.hwm, m.lso(), m.open[pA], m.open[pB])
+	kinds := [...]string{"", "(registered only, raw)", "(registered only, zombie produce)"}
+	fmt.Fprintf(&sb, "model: hwm=%d lso=%d openA=%d%s openB=%d%s\n", m.hwm, m.lso(), m.open[pA], kinds[m.kind[pA]*min(uint8(m.open[pA]), 1)], m.open[pB], kinds[m.kind[pB]*min(uint8(m.open[pB]), 1)])
 	for i := range m.log {
 		fmt.Fprintf(&sb, "  %s\n", m.describe(&m.log[i]))
 	}
@@ -255,18 +346,19 @@ func (m *model) dump() string {
 }
 
 // enumerate calls leaf for every enabled history of exactly `depth` steps
-// extending hist (m = model after hist), in lexicographic order.
-func enumerate(m *model, hist []sym, depth int, leaf func(h []sym)) {
+// extending hist (m = model after hist) over the symbols in mask, in
+// lexicographic order.
+func enumerate(m *model, hist []sym, depth int, mask uint32, leaf func(h []sym)) {
 	if len(hist) == depth {
 		leaf(hist)
 		return
 	}
 	for s := sym(0); s < nSym; s++ {
-		if !m.enabled(s) {
+		if mask&(1<<s) == 0 || !m.enabled(s) {
 			continue
 		}
 		c := m.clone()
 		c.apply(s)
-		enumerate(c, append(hist, s), depth, leaf)
+		enumerate(c, append(hist, s), depth, mask, leaf)
 	}
 }
